@@ -50,7 +50,10 @@ func (its *WiredDatatype) ReceiveRemoteModelOperations(ops []*model.Operation, o
 		var transaction []*model.Operation
 		switch modelOp.GetOpType() {
 		case model.TypeOfOperation_TRANSACTION:
-			txOp := operations.ModelToOperation(modelOp).(*operations.TransactionOperation)
+			txOp, ok := decodeTransactionHeader(modelOp)
+			if !ok {
+				return nil, errors.DatatypeTransaction.New(its.L(), "undecodable transaction operation")
+			}
 			if txOp.GetNumOfOps() < 1 || i+int(txOp.GetNumOfOps()) > len(ops) {
 				return nil, errors.DatatypeTransaction.New(its.L(), "incomplete transaction: not matched number of operations")
 			}
@@ -68,6 +71,18 @@ func (its *WiredDatatype) ReceiveRemoteModelOperations(ops []*model.Operation, o
 		opList = append(opList, txList)
 	}
 	return opList, nil
+}
+
+// decodeTransactionHeader decodes the operation that announces a unit; a body that cannot be decoded (decoding
+// panics on it) is reported instead of taking the caller down.
+func decodeTransactionHeader(modelOp *model.Operation) (txOp *operations.TransactionOperation, ok bool) {
+	defer func() {
+		if r := recover(); r != nil {
+			txOp, ok = nil, false
+		}
+	}()
+	txOp, ok = operations.ModelToOperation(modelOp).(*operations.TransactionOperation)
+	return txOp, ok && txOp != nil
 }
 
 // CreatePushPullPack creates a PushPullPack
